@@ -46,6 +46,8 @@ Definition R_of (x : PrimFloat.float) : R := B2R (Prim2B x).
 
 Lemma Prim2B_zero : Prim2B 0 = B754_zero false.
 Proof. change 0 with zero. rewrite zero_equiv. apply Prim2B_B2Prim. Qed.
+Lemma Prim2B_neg_zero : Prim2B neg_zero = B754_zero true.
+Proof. rewrite neg_zero_equiv. apply Prim2B_B2Prim. Qed.
 Lemma Prim2B_one : Prim2B 1 = Bone.
 Proof. change 1 with one. rewrite one_equiv. apply Prim2B_B2Prim. Qed.
 
@@ -53,10 +55,10 @@ Lemma round_B2R (b : binary_float prec emax) :
   round radix2 (fexp prec emax) (round_mode mode_NE) (B2R b) = B2R b.
 Proof. apply round_generic; [apply valid_rnd_round_mode | apply generic_format_B2R]. Qed.
 
-Lemma add0 x : fin x -> fin (x + 0) /\ R_of (x + 0) = R_of x.
+Lemma add0 x : fin x -> fin (x + neg_zero) /\ R_of (x + neg_zero) = R_of x.
 Proof.
-  unfold fin, R_of. intros Hx. rewrite add_equiv, Prim2B_zero.
-  generalize (Bplus_correct prec emax _ _ mode_NE (Prim2B x) (B754_zero false) Hx eq_refl).
+  unfold fin, R_of. intros Hx. rewrite add_equiv, Prim2B_neg_zero.
+  generalize (Bplus_correct prec emax _ _ mode_NE (Prim2B x) (B754_zero true) Hx eq_refl).
   cbn [B2R]. rewrite Rplus_0_r, round_B2R, Rlt_bool_true by apply abs_B2R_lt_emax.
   intros (A & B & _). auto.
 Qed.
